@@ -572,6 +572,8 @@ def _apply_real_faults(sim: Sim, faults):
         if kind not in REAL_FAULTS:
             continue
         path = os.path.join(sim.root, f["target"])
+        if sim.rel(path) in (None, "."):
+            continue  # never touch anything outside the world directory (e.g. an input such as /dev/null)
         saved = None
         was_dir = os.path.isdir(path)
         if was_dir and kind in ("replace", "remove"):
@@ -750,6 +752,8 @@ def _exec_write(sim, op):
     global _HELD_FRESH
     _HELD_FRESH = False
     path = os.path.join(sim.root, op["path"])
+    if sim.rel(path) in (None, "."):
+        return ["skipped-outside-world"]
     with sim.harness():
         os.makedirs(os.path.dirname(path), exist_ok=True)
         if op.get("content") is None:
@@ -802,7 +806,14 @@ def child_main(root: str, ops: list, seed: int, opts: dict | None = None) -> dic
                 undo = _apply_real_faults(sim, sim.faults)
             sim.in_op = True
             try:
-                oc = _exec_match(op) if kind == "match" else _exec_cli(op)
+                if op.get("warnings_error"):
+                    # the environment runs Python with warnings promoted to errors (python -W error / PYTHONWARNINGS=error)
+                    import warnings
+                    with warnings.catch_warnings():
+                        warnings.simplefilter("error")
+                        oc = _exec_match(op) if kind == "match" else _exec_cli(op)
+                else:
+                    oc = _exec_match(op) if kind == "match" else _exec_cli(op)
             finally:
                 sim.in_op = False
                 with sim.harness():
